@@ -259,6 +259,10 @@ def check(case):
             allowed4 = 2 * (Lg * yerr + derr) / max(slope, 1e-300) + 64 * eps * max(1.0, abs(te), abs(t_true)) + 1e-9 * abs(case["tf"] - case["t0"])
             if grid_err > 1e-2 * scale:
                 labels.append("inaccurate_run:location_not_judged")    # step size far beyond the accuracy regime of the method
+            elif not abs(te - t_true) <= allowed4 and abs(ev.g_exact(P, te)) <= 2 * (Lg * yerr + derr):
+                # along the exact trajectory g comes within the numerical error of zero at the reported time without
+                # crossing there (a grazing approach): the computed trajectory may cross where the exact one does not
+                labels.append("grazing_within_numerical_error")
             elif not abs(te - t_true) <= allowed4:
                 viols.append(V("event_location", "{}: event of #{} {} reported at t={!r}; nearest true crossing at {!r} (off by {:.3e}, allowed {:.3e}; grid error {:.2e}, h {:.2e})".format(
                     method, j, ev.p, te, t_true, abs(te - t_true), allowed4, grid_err, hmax), sig, **attrs))
